@@ -2071,7 +2071,7 @@ class binary(base_quantizer.BaseQuantizer):  # pylint: disable=invalid-name
 
   def __str__(self):
     def list_to_str(l):
-      return ",".join([str(x) for x in l])
+      return " ".join([str(x) for x in l])
 
     flags = []
     if self.use_01:
